@@ -37,6 +37,45 @@ def call_observer(obj, name):
     return getattr(obj, name)()
 
 
+def class_state(obj):
+    """Plain data attributes set on the library classes of the object (class-level state an observer may leave behind)."""
+    state = []
+    for klass in type(obj).__mro__:
+        if not getattr(klass, '__module__', '').startswith('cryptoparser'):
+            continue
+        for name, value in sorted(vars(klass).items()):
+            if name.startswith('__') or isinstance(value, (type, property, classmethod, staticmethod)) or hasattr(value, '__get__'):
+                continue    # methods, descriptors, nested classes; callable *instances* (encoder hooks) are state
+            if isinstance(value, (dict, list, set)):
+                state.append((klass.__name__, name, id(value), len(value)))
+            else:
+                state.append((klass.__name__, name, id(value)))
+    return state
+
+
+def has_non_string_keys(value, depth=0):
+    """Does rendering this value meet a dictionary with keys that are not text (the path that swaps the text encoder)?"""
+    if depth > 4:
+        return False
+    if hasattr(value, '_asdict'):
+        try:
+            value = value._asdict()  # pylint: disable=protected-access
+        except Exception:  # pylint: disable=broad-except
+            return False
+    if isinstance(value, dict):
+        return any(not isinstance(key, str) for key in value) or any(has_non_string_keys(item, depth + 1) for item in value.values())
+    if isinstance(value, (list, tuple)) or (hasattr(value, '__iter__') and hasattr(value, '_items')):
+        return any(has_non_string_keys(item, depth + 1) for item in list(value)[:8])
+    return False
+
+
+class MarkingEncoder(object):  # pylint: disable=too-few-public-methods
+    """A caller's output hook (Serializable.post_text_encoder is the documented customisation point)."""
+
+    def __call__(self, obj, level):
+        return False, '<<%s>>' % (obj if isinstance(obj, str) else str(obj))
+
+
 def result_state(value):
     return structural.deep_state(value, strict_types=False)
 
@@ -85,6 +124,11 @@ class Check(core.CheckBase):
             index += 1
             if self.mine(index):
                 yield {'kind': 'defaults', 'cls': name}
+        for family in ('tls', 'ssh', 'dns', 'opp'):
+            for block in range(2 if self.tier == 'quick' else 24):
+                index += 1
+                if self.mine(index):
+                    yield {'kind': 'generated', 'family': family, 'block': block}
 
     def judge(self, case):
         return getattr(self, 'judge_' + case['kind'].replace('-', '_'))(case)
@@ -99,7 +143,43 @@ class Check(core.CheckBase):
         obj = self._fresh(case['cls'], source_cls, source_data, case['number'])
         if obj is None:
             return []
-        return self.purity(obj, case, 'C13/%s/%s/%s' % (self.seed, case['cls'], case['number']))
+        found = self.purity(obj, case, 'C13/%s/%s/%s' % (self.seed, case['cls'], case['number']))
+        if not found and hasattr(obj, 'as_markdown') and has_non_string_keys(obj):
+            # the same with a caller's text encoder installed on the object's own class: rendering must neither drop it nor
+            # spread it to other classes (observed through the class-state snapshot of the whole MRO)
+            owner = type(obj)
+            had_own = 'post_text_encoder' in vars(owner)
+            previous = vars(owner).get('post_text_encoder')
+            owner.post_text_encoder = MarkingEncoder()
+            self.stats['encoder_hook_objects'] += 1
+            try:
+                found = self.purity(obj, dict(case, hook=True), 'C13/hook/%s/%s/%s' % (self.seed, case['cls'], case['number']))
+            finally:
+                if had_own:
+                    owner.post_text_encoder = previous
+                else:
+                    try:
+                        del owner.post_text_encoder
+                    except AttributeError:
+                        pass
+        return found
+
+    def judge_generated(self, case):
+        """Constructed objects (vmon/gen: field combinations no test vector has - certificate chains with issuers, valued
+        options, unknown code points, several flags) and the library objects nested in them."""
+        import copy  # pylint: disable=import-outside-toplevel
+        import importlib  # pylint: disable=import-outside-toplevel
+        from vmon import objgen  # pylint: disable=import-outside-toplevel
+        rng = random.Random('C13/gen/%s/%s/%s' % (self.seed, case['family'], case['block']))
+        found = {}
+        for number, pair in enumerate(importlib.import_module('vmon.gen.' + case['family']).generate(rng, 30)):
+            root = copy.deepcopy(pair.obj)
+            for position, obj in enumerate([root] + objgen.sub_objects(root, limit=4)):
+                self.stats['constructed_objects'] += 1
+                for violation in self.purity(obj, dict(case, number=number, position=position),
+                                             'C13/gen/%s/%s/%s/%s/%s' % (self.seed, case['family'], case['block'], number, position)):
+                    found.setdefault(violation.key, violation)
+        return list(found.values())
 
     def _fresh(self, name, source_cls, source_data, number):
         from vmon import objgen  # pylint: disable=import-outside-toplevel
@@ -127,6 +207,7 @@ class Check(core.CheckBase):
         names = observers_of(obj)
         found = []
         before = structural.deep_state(obj, strict_types=True)
+        classes_before = class_state(obj)
         first_results = {}
         schedule = []
         for _ in range(rng.randrange(2, 6)):
@@ -144,6 +225,14 @@ class Check(core.CheckBase):
                 outcome = ('raised', type(e).__name__)
                 self.stats['observer_calls_failed'] += 1
             ran.add(name)
+            classes_after = class_state(obj)
+            if classes_after != classes_before:
+                changed = sorted(set(entry[:2] for entry in set(classes_after) ^ set(classes_before)))
+                found.append(self.violation(
+                    'class-state-changed|%s|%s' % (name, '+'.join('%s.%s' % entry for entry in changed[:3])),
+                    '%s.%s() left class-level state behind: %s (what later objects render or compose to now depends on this call)' % (
+                        cls_name, name, ', '.join('%s.%s' % entry for entry in changed[:5])), case))
+                break
             after = structural.deep_state(obj, strict_types=True)
             if after != before:
                 where = structural.diff_path(before, after)
